@@ -72,7 +72,7 @@ theorem mark_ext (p : Pool) (o : Obj) (f r : Bool) :
     · exact ⟨[], by simp, rfl, rfl, by simp⟩
     · refine ⟨[TEv.mark o.key (p.last + 1) f r], ?_, rfl, rfl, ?_⟩
       · show _ ++ [_] = p.tr ++ [_]; congr 1; split <;> simp
-      · show (if _ then register p o else p).pf = p.pf; split <;> simp
+      · show (if _ then registerNew p o else p).pf = p.pf; split <;> simp
 
 theorem fire_ext (p : Pool) (o : Obj) :
     ∃ ext, (ClonePool.fire p o).tr = p.tr ++ ext ∧ finOrders ext = [] ∧ relOrders ext = [] ∧
@@ -185,6 +185,7 @@ theorem InvR.use {p : Pool} (h : InvR p) (u : Use) (hu : isRtUse u = true) : Inv
     | xAR => cases hu
 
 theorem rt_invR (es : List REv) : ∀ p ∈ (GcRuntime.run es).pools, InvR p :=
-  AllPools.run (P := InvR) InvR.init (fun _ u hu hi => hi.use u hu) es
+  AllPools.run (P := InvR) InvR.init (fun _ u hu hi => hi.use u hu)
+    (fun p o hi => ⟨Inv.congr (p := p) (q := clearFinalizer p o) rfl rfl rfl rfl rfl hi.inv, hi.nfar, hi.relSafe⟩) es
 
 end GoluaVerif.Proofs.C18
